@@ -365,9 +365,13 @@ func TestC14(t *testing.T) {
 		alphabet := []rune("ab,'|=/()~ 测,',,'谬丯甬\\")
 		rapid.Check(t, func(t *rapid.T) {
 			var s string
-			if rapid.Bool().Draw(t, "structured") {
+			switch rapid.IntRange(0, 4).Draw(t, "structured") {
+			case 0, 1:
 				s = genText(t, alphabet, 0, 14, "s")
-			} else {
+			case 2:
+				// rule text is a string of BYTES: bytes that are no valid UTF-8 (a pattern in another encoding) pass through as they are
+				s = genText(t, alphabet, 0, 6, "s1") + rapid.SampledFrom([]string{"\xff", "\xfe\xff", "\x80", "\xc0\xaf", "\xed\xa0\x80"}).Draw(t, "rawBytes") + genText(t, alphabet, 0, 6, "s2")
+			default:
 				s = rapid.String().Draw(t, "s")
 			}
 			sep := rapid.SampledFrom([]byte{',', ',', '/', '-', ' ', 'a', '|'}).Draw(t, "sep")
